@@ -223,6 +223,7 @@ def run(ctx, rep):
     _depfilter.run(F, rep, "C07")
     fresh_cell_for_new_names_only(F, rep)
     modify_targets_a_capture(F, rep)
+    cell_writes_only_by_assignments(F, rep)
 
     # ---- (a) ---------------------------------------------------------------------
     if _visit is not None:
@@ -331,3 +332,49 @@ def modify_targets_a_capture(F, rep):
     rep.ob("C07.modify-target", "`modify` is accepted only for a name found beyond a function boundary", v,
            "" if v == "ok" else "an Ok answer is reachable although the name was found inside the current function (%s)" % info, looks[0].span, fn=f.path,
            key="C07.modify-target")
+
+
+
+def cell_writes_only_by_assignments(F, rep):
+    """A captured variable is the cell itself, so its value changes exactly when the program assigns to it.  In the interpreter the functions
+    that write a cell in place (PrimitiveFlagsPair::set_primitive / set_flags / update_primitive) are therefore reachable from the dispatch
+    loop and the call machinery only *through an instruction handler* (store, store_object, bin_op_assign, unwrap_into, ptr_mut, ...).  With
+    the handlers cut out of the call graph nothing in Function::run / Program may reach a cell write - "clean-up" of a frame's cells on scope
+    exit, say, would change what closures that captured them see."""
+    fns = {f.path: f for f in F.crates["bytecode"].fns}
+    adj = {}
+    for pth, f in fns.items():
+        out = set()
+        for c in f.calls():
+            for nm in [c.callee()] + sorted(c.names):
+                if nm in fns:
+                    out.add(nm)
+        for g in F.closures_of(f):
+            out.add(g.path)
+        adj[pth] = out
+    handlers = {p for p in fns if p.startswith("bytecode::instruction::implementations::")}
+    targets = {p for p in fns if p.endswith(("PrimitiveFlagsPair::set_primitive", "PrimitiveFlagsPair::set_flags", "PrimitiveFlagsPair::update_primitive"))}
+    if len(handlers) < 40 or not targets:
+        raise AnchorMissing("instruction handlers / PrimitiveFlagsPair::set_primitive")
+    roots = [p for p in fns if p.endswith(("function::Function::run", "interpreter::Program::process_jump_request", "interpreter::Program::execute",
+                                           "interpreter::Program::process_standard_jump_request", "function::Functions::run_function", "file::MScriptFile::run_function"))]
+    rep.floor("C07.cell-writes roots (dispatch loop and call machinery)", len(roots), 3)
+    hits = []
+    for root in roots:
+        seen = {root}
+        work = [(root, [root])]
+        while work:
+            x, path = work.pop()
+            for y in sorted(adj.get(x, ())):
+                if y in handlers:
+                    continue
+                if y in targets:
+                    hits.append(path + [y])
+                    continue
+                if y not in seen:
+                    seen.add(y)
+                    work.append((y, path + [y]))
+    short = sorted({" -> ".join(mir.short(x) for x in h) for h in hits}, key=len)
+    rep.ob("C07.cell-writes", "outside the instruction handlers, the dispatch loop and the call machinery never write a variable cell in place",
+           "violated" if hits else "ok", "; ".join(short[:2]) if hits else "%d handlers cut out, %d roots" % (len(handlers), len(roots)),
+           None, fn="bytecode::function::Function::run", key="C07.cell-writes")
